@@ -179,7 +179,7 @@ def bundled_part():
 
 BODY_ATOMS = ["RdV = RsV;", "fA(RsV);", "fB(RsV, RtV);", "RdV = fC(RsV) + OBJ;", "fWRAP(RdV = 1);", "fWRAP2(RsV, RtV);",
               "undo = 1;", "redo(RdV);", "x = do_it(RsV);", "while_0 = 3;", "fNEST(RdV);", "fUSER(RsV);",
-              "if (RsV) { fWRAP(RdV = 5); }", "fDUP(RsV);"]
+              "if (RsV) { fWRAP(RdV = 5); }", "fDUP(RsV);", "fUO(RsV);", "RdV = fUO(RtV) + fUO3(1);"]
 
 
 def build_model(draw, st):
@@ -194,6 +194,9 @@ def build_model(draw, st):
     for name, params, body in base:
         where = draw(st.sampled_from(["macros.inc", "macros.h", "macros_mmvec.h"]))
         macros.append((name, params, body, where))
+    # macros guarded by CONFIG_USER_ONLY (never defined here): the #else branch is the one C takes
+    macros.append(("fUO", "(X)", "system_version(X)", draw(st.sampled_from(["macros.h#uo", "macros.inc#uo"]))))
+    macros.append(("fUO3", "(X)", "((X) + sys3)", "macros.h#uo"))
     # duplicates (a later definition of the same name in another/same file)
     ndup = draw(st.integers(0, 2))
     for _ in range(ndup):
@@ -218,6 +221,10 @@ def write_files(draw, st, macros, patch, insns):
     files = {"macros.inc": [], "macros.h": [], "macros_mmvec.h": []}
     for name, params, body, where in macros:
         style = draw(st.integers(0, 4))
+        if where.endswith("#uo"):
+            files[where.split("#")[0]] += ["#ifdef CONFIG_USER_ONLY", f"#define {name}{params} user_only_version_of_{name}(X)",
+                                           "#define fUO_ONLY_USER(X) nothing(X)", "#else", f"#define {name}{params} {body}", "#endif"]
+            continue
         lines = files[where]
         if style == 1:
             lines.append("// a comment line")
@@ -236,9 +243,10 @@ def write_files(draw, st, macros, patch, insns):
             continue
         lines.append(f"#define {name}{params} {body}")
     # decoys inside a QEMU_GENERATE block (must be ignored for macros.h / macros.inc)
+    k = 0 if (files["macros.h"] and files["macros.h"][0].startswith("#ifdef")) else 1   # never split a guarded block
     files["macros.h"] = ["#ifndef GUARD_H", "#define GUARD_H 1", "#include \"x.h\"", "#ifdef QEMU_GENERATE",
-                         "#define fA(X) qemu_generate_version(X)", "#else"] + files["macros.h"][:1] + ["#endif"] + \
-                        files["macros.h"][1:] + ["#endif"]
+                         "#define fA(X) qemu_generate_version(X)", "#else"] + files["macros.h"][:k] + ["#endif"] + \
+                        files["macros.h"][k:] + ["#endif"]
     pl = ["// patches"]
     for name, (params, body) in patch.items():
         if draw(st.booleans()) and " " in body:
@@ -257,7 +265,7 @@ def expected_header(macros, patch, insns):
     """independent 'patched macro set': each patch replaces all definitions of its macro, user-only patches added,
     unpatched macros keep their definitions in file order (inc, macros.h, mmvec) - a later duplicate wins in cpp"""
     order = {"macros.inc": 0, "macros.h": 1, "macros_mmvec.h": 2}
-    ms = sorted(enumerate(macros), key=lambda im: (order[im[1][3]], im[0]))
+    ms = sorted(enumerate(macros), key=lambda im: (order[im[1][3].split("#")[0]], im[0]))
     lines = []
     done = set()
     seen_unpatched = {}
